@@ -160,13 +160,27 @@ def run(ctx, prop):
         # not necessary); the stage outputs above decide the property.
         from harness import steps
         cov["step_certificates"], big_viol = steps.coverage(prop, ctx["tier"], [c["succ"] for c in cases], ctx["seed"])
+        if prop == "C01":
+            # diagnosis only: which mutating call of the failing run is the first one outside its step relation
+            for v in violations[:3]:
+                try:
+                    succ = tuple(tuple(x) for x in v["payload"]["input_succ"])
+                    cst, unc = steps.certify_chains([succ])
+                    v["payload"]["chain_diagnosis"] = {
+                        "fully_observed": cst["runs_fully_observed"] == 1,
+                        "certified": cst["runs_certified_unconditionally"] == 1,
+                        "first_uncertified_step": unc[0][1] if unc else None,
+                        "steps_by_kind": cst.get("steps_by_kind", {})}
+                except Exception as e:  # noqa: BLE001
+                    v["payload"]["chain_diagnosis"] = {"error": type(e).__name__}
         for v in big_viol[:3]:
             violations.append({
                 "signature": {"stage": "large-input", "clauses": "trace-differs"},
                 "what": f"C01: the walk by name over the final hierarchy of a {len(v['succ'])}-block input shows a trace that "
                         f"differs from the input graph's after decisions {v['decisions']}",
                 "payload": {"input_succ": v["succ"], "kind": "large-input-walk", "walks": v["walks"],
-                            "decisions": v["decisions"], "replay_cmd": "./check C01 --replay <this file>"}})
+                            "decisions": v["decisions"], "first_uncertified_step": v.get("first_uncertified_step"),
+                            "replay_cmd": "./check C01 --replay <this file>"}})
     return {"level": LEVEL, "coverage": cov, "violations": violations, "assumptions": ASSUMPTIONS}
 
 
